@@ -39,7 +39,10 @@ type E2ECase struct {
 	// StoredEarlier: before the three requests the operator had directives ignored for a while (run-time switch on,
 	// one GET that stores the answer whatever it says, switch off again): the entry from that period is still there
 	StoredEarlier bool `json:"stored_while_directives_were_ignored,omitempty"`
-	Via416        bool `json:"via_416"` // GET only: the first request carries a Range that the origin answers with 416 and the opposite freshness headers; the proxy's retry gets the scripted answer
+	// EarlierRange: with StoredEarlier, the first judged request asks for a byte range of the resource (a slice
+	// cut from the store is "answered from the store" too)
+	EarlierRange bool `json:"earlier_range,omitempty"`
+	Via416       bool `json:"via_416"` // GET only: the first request carries a Range that the origin answers with 416 and the opposite freshness headers; the proxy's retry gets the scripted answer
 }
 
 func noBody(st int) bool { return st == 204 || st == 205 || st == 304 }
@@ -186,6 +189,9 @@ var subE2E = ev.Register("storable-e2e",
 			if c.Via416 && id == "r1" && method == "GET" {
 				req.Headers = []px.H{{K: "Range", V: "bytes=999999-"}}
 			}
+			if c.StoredEarlier && c.EarlierRange && id == "r1" && method == "GET" {
+				req.Headers = []px.H{{K: "Range", V: "bytes=0-0"}}
+			}
 			if method == "POST" || method == "PUT" || method == "PATCH" {
 				req.Body = "payload-" + id
 			}
@@ -236,6 +242,14 @@ var subE2E = ev.Register("storable-e2e",
 				} else {
 					first = nil
 				}
+				continue
+			}
+			if c.StoredEarlier && c.EarlierRange && i == 1 {
+				// a slice, a refusal or the whole are all fine (C07's subject); where the answer came from is this check's
+				if verdict == "must-not-reuse" && len(org.ByReqID(id)) == 0 {
+					return ev.Failf("store-e2e.reused:entry-from-ignore-period:range:"+reason, "%s GET with Range (Cache-Control %q, Expires %q, ignore=%v now): answered %d from the entry stored while directives were ignored, without contacting the origin", id, c.Fresh.CC, c.Fresh.Expires, c.Ignore, resp.Status)
+				}
+				first = nil
 				continue
 			}
 			if resp.Status != c.Status {
@@ -331,6 +345,7 @@ func drawE2E(t *rapid.T) E2ECase {
 	}
 	if !c.Ignore && c.UnstorableFirst == "" && c.Method == "GET" && c.Status == 200 && !c.Via416 && rapid.IntRange(0, 5).Draw(t, "stored-earlier") == 0 {
 		c.StoredEarlier = true
+		c.EarlierRange = rapid.IntRange(0, 2).Draw(t, "earlier-range") == 0
 		// make the forbidding directives frequent here: they are what the earlier period overrode
 		if rapid.Bool().Draw(t, "earlier-forbidding") {
 			c.Fresh = rapid.SampledFrom([]gen.Fresh{{CC: []string{"no-store"}}, {CC: []string{"private, max-age=600"}}, {CC: []string{"no-cache"}}, {CC: []string{"max-age=0"}}, {CC: []string{"No-Store, max-age=60"}},
